@@ -174,3 +174,33 @@ func VerifC12_RelayRelease() {
 	verifReach("quiescent")
 	verifAssert(verifGet(&released) == 1, "the parent's token continues exactly once when the inner instance has completed")
 }
+
+// C12 (completion report): real subProcess.NextAction / run / ceaseFlowMonitor; the inner instance `start -> end` is
+// stood in for by what it emits on the inner tracer when it runs to completion at once (subProcess.startAll replaced):
+// the inner start event's FlowTrace and the end event's CompletionTrace, with the inner wait group at zero.  The inner
+// completion monitor must then report that no inner token remains where the node waits for the report, and the parent's
+// token must continue - exactly once.
+func verifSubStartAllDone(sp *subProcess, ctx context.Context) error {
+	sp.subTracer.Send(FlowTrace{Source: &sp.element.StartEventField[0]})
+	sp.subTracer.Send(CompletionTrace{Node: &sp.element.EndEventField[0]})
+	return nil
+}
+
+func VerifC12_CompletionReport() {
+	b := verifNewB("p")
+	b.flow("in", "s", "sub", false)
+	b.subProcess("sub", []string{"in"}, []string{"out"}, false)
+	b.flow("out", "sub", "after", false)
+	b.task("after", []string{"out"}, nil)
+	inst := verifNewInst(b)
+	if inst.proc == nil {
+		return
+	}
+	var after int64
+	inst.sinkAt("after", &after)
+	inst.tokenAt("sub", "in")
+	verifQuiesce()
+	verifReach("quiescent")
+	verifAssert(verifGet(&after) <= 1, "the parent's token continues past the sub-process at most once")
+	verifAssert(verifGet(&after) >= 1, "the parent's token continues past the sub-process once every inner token is consumed")
+}
